@@ -121,10 +121,10 @@ def leg_msgpack_docs(chk, tier):
     sc = mp.gen("MC_LoadScript", {"Mode": '"typed"', "MaxOps": 1 if quick else 3, "Widths": "{0, 4}" if quick else "{0, 2, 4, 5}", "Pads": "{0}",
                                   "TypedTargets": '{"i32", "str", "f32", "vec_u8", "tp_ns", "objscope", "null"}' if quick else "{}"},
                 ["Export"], "c10-typed", chk, timeout=3000, xmx="8g")
-    pairs = mp.replay(sc, mp.MEDIA_SEEKABLE + ["nonseek", "file"], 8, "d8")
+    pairs = mp.replay(sc, (["mem", "sstream", "short3", "nonseek", "fileapi"] if quick else mp.MEDIA_SEEKABLE + ["nonseek", "file", "fileapi"]), 8, "d8")
     sf = mp.gen("MC_LoadScript", {"Mode": '"fields"', "MaxOps": 1, "Widths": "{0}", "Pads": mp.tla_set([248, 251, 254] if quick else range(240, 262))},
                 ["Export"], "c10-fields256", chk, timeout=3000, xmx="8g")
-    pairs += mp.replay(sf, ["mem", "sstream", "short64", "nonseek", "file"], 256, "d256")
+    pairs += mp.replay(sf, ["mem", "sstream", "short64", "nonseek", "file", "fileapi"], 256, "d256")
     # the property is an equivalence: every stream run must give the outcome of the memory run on the same bytes
     # (same exception category, and when both complete the same events); absolute correctness is decided by C07
     by = {}
@@ -167,7 +167,7 @@ def leg_text_docs(chk, tier):
         # every intact document of the space (not only the sample that gets damaged)
         sampled = set(id(x) for x in base)
         scen += [dict(x, kind="intact") for x in sc if id(x) not in sampled]
-        pairs = mp.replay(scen, ["mem", "sstream", "short1", "short3", "nonseek", "file"], 8, "t" + arch[0], arch)
+        pairs = mp.replay(scen, ["mem", "sstream", "short3", "nonseek", "fileapi"] if quick else ["mem", "sstream", "short1", "short3", "nonseek", "file", "fileapi"], 8, "t" + arch[0], arch)
         by = {}
         for s, o in pairs:
             by.setdefault(id(s), (s, []))[1].append(o)
@@ -204,8 +204,8 @@ def leg_save_identity(chk, tier):
     vlib.write_ndjson(sp, rows)
     obs = vlib.run_resumable([mp.harness(256), "save", sp], timeout=1800)
     for o in obs:
-        if "e" in o or o["mem"] != o["stream"] or o["excmem"] != o["excstream"]:
-            chk.fail("MsgPack save: memory and stream output differ", {"scenario": rows[o["run"]], "observed": o})
+        if "e" in o or o["mem"] != o["stream"] or o["excmem"] != o["excstream"] or o.get("file", o["mem"]) != o["mem"] or o.get("excfile", o["excmem"]) != o["excmem"]:
+            chk.fail("MsgPack save: memory, stream and file (SaveObjectToFile) output differ", {"scenario": rows[o["run"]], "observed": o})
     chk.add_cases(len(rows), distinct_keys=(("save", json.dumps(x["root"])) for x in rows), validated=len(rows))
     jc.save_leg(chk, tier, label="json-save-identity")
 
